@@ -285,7 +285,7 @@ func compile(patterns []string, mode Mode) (*regexp.Regexp, error) {
 								break Pattern
 							}
 							b.WriteString(pat[:w])
-						case '!', '-', '[', ']', '^':
+						case '!', '-', '[', '\\', ']', '^':
 							b.WriteByte('\\')
 						}
 						b.WriteRune(r)
